@@ -29,7 +29,7 @@ impl<'a> OpRec<'a> {
     }
     pub fn msg_id(&self) -> Option<u64> {
         match self.inner {
-            Op::Send { id, .. } | Op::ForceSend { id, .. } | Op::Call { id, .. } | Op::Publish { id, .. } => Some(*id),
+            Op::Send { id, .. } | Op::SendThenDrop { id, .. } | Op::ForceSend { id, .. } | Op::Call { id, .. } | Op::Publish { id, .. } => Some(*id),
             _ => None,
         }
     }
@@ -51,7 +51,7 @@ impl<'a> OpRec<'a> {
     /// true if the operation uses the waiting submission path (may park on a full mailbox)
     pub fn waiting_path(&self) -> bool {
         match self.inner {
-            Op::Send { .. } => true,
+            Op::Send { .. } | Op::SendThenDrop { .. } => true,
             Op::Call { .. } => matches!(self.hk, Some(HKind::Caller) | Some(HKind::WeakCaller)),
             _ => false,
         }
@@ -464,7 +464,7 @@ impl<'a> View<'a> {
         }
         let Some(aidx) = a.aidx else { return false };
         for o in self.ops.iter().filter(|o| o.target == Some(aidx) && !o.skipped()) {
-            if let (Op::Send { id, .. } | Op::ForceSend { id, .. } | Op::Call { id, .. }, true) = (o.inner, o.begin < seq) {
+            if let (Op::Send { id, .. } | Op::SendThenDrop { id, .. } | Op::ForceSend { id, .. } | Op::Call { id, .. }, true) = (o.inner, o.begin < seq) {
                 let entered = self.cbs_of(a).any(|c| c.id == *id && c.enter < seq);
                 // (an operation its client gave up may still have put its message into the
                 // mailbox: if the handler runs later, it had)
